@@ -204,3 +204,33 @@ def make_netloc(user, password, host, port, encode=False):
     if userinfo:
         return userinfo + "@" + hostport
     return hostport
+
+
+# ---------------------------------------------------------------- lemma: authority round trip
+
+def host_text_ok(host):
+    """a host as it is written in an authority: an IP-literal in brackets, or text free of
+    the authority delimiters"""
+    br = host[:1] == "["
+    return ((br and len(host) >= 2 and host[-1:] == "]" and not ("]" in host[1:-1]) and not ("@" in host))
+            or (not br and not (":" in host) and not ("@" in host) and not ("[" in host) and not ("]" in host)))
+
+
+def netloc_parts_ok(user, password, host, port):
+    return ((user is None or not (":" in user))
+            and host_text_ok(host)
+            and (port is None or (0 <= port and port <= 65535)))
+
+
+def unbracket(host):
+    if host[:1] == "[":
+        return host[1:-1]
+    return host
+
+
+def lemma_netloc_roundtrip(user, password, host, port):
+    """C03/C09/C11: re-parsing an authority assembled from canonical parts gives the parts back
+    (an empty user or host reads back as absent)"""
+    h = unbracket(host)
+    return split_netloc(make_netloc(user, password, host, port)) == (
+        user if user else None, password, h if h else None, port)
